@@ -431,12 +431,13 @@ func (ex *Exec) symbolicParam(st *State, p *ssa.Parameter, world int, ctx **CtxV
 		arr := Var("in_"+p.Name()+"_arr", ArraySort(SInt, es))
 		n := Var("in_"+p.Name()+"_len", SInt)
 		tmp := NewState()
-		ex.typeInvariant(tmp, MkSl(es, arr, n), t, 0)
+		nl := Var("in_"+p.Name()+"_isnil", SBool)
+		ex.typeInvariant(tmp, MkSlNil(es, arr, n, nl), t, 0)
 		for _, c := range tmp.pc {
 			st.AssumeDef(c)
 		}
 		o := st.NewObj("param:"+p.Name(), nil, arr)
-		return &SliceV{Obj: o, Off: IntLit(0), Len: n, Elem: sl.Elem()}
+		return &SliceV{Obj: o, Off: IntLit(0), Len: n, Elem: sl.Elem(), Nil: nl}
 	}
 	if _, ok := t.Underlying().(*types.Signature); ok {
 		// a function-typed parameter: an arbitrary pure, deterministic function of its arguments
